@@ -29,9 +29,10 @@ Definition ex_show (cfg : lsconf) (r : lsrun) :=
 Definition ex_run (f : float -> float * float) (cfg : lsconf) (x0 : float) : lsrun :=
   ls_solver_run (ex_orc f) cfg (ls_fuel cfg) [x0].
 
-(* "with an Armijo-type search the returned value is not larger than the starting value unless the status is failed":
-   FALSE of the faithful model -- solver_t::done gives `converged` precedence over a failed line search (iter_ok = false),
-   and a failed search leaves the state at its last trial point, whose value may be anything *)
+(* "with an Armijo-type search the returned value is not larger than the starting value unless the status is failed".
+   It was FALSE of the faithful model of the code before repo commit 85997bc (solver_t::done gave `converged` precedence over
+   a failed line search, iter_ok = false, and a failed search leaves the state at its last trial point, whose value may be
+   anything); it is a theorem now (Properties_C02.C02_lsloop_not_worse_unless_failed). *)
 Definition C02_lsloop_not_worse_unless_failed_full_statement : Prop :=
   forall orc cfg fuel x0,
     (0 < C07_Defs.maxit (lc_prm cfg))%Z -> armijo_type (lc_alg cfg) = true ->
@@ -40,12 +41,17 @@ Definition C02_lsloop_not_worse_unless_failed_full_statement : Prop :=
     lr_irreg r = false -> sstatus (ls_result cfg r) <> ST_FAILED ->
     (sfx (ls_result cfg r) <=? fst (o_eval orc 0%Z x0)) = true.
 
-Lemma s_lsloop_not_worse_unless_failed_refuted : ~ C02_lsloop_not_worse_unless_failed_full_statement.
-Proof.
-  intros F.
-  specialize (F (ex_orc ex_trap) (ex_cfg BGd C07_Defs.Backtrack 1 100) 101%nat [0] eq_refl eq_refl eq_refl).
-  vm_compute in F. specialize (F eq_refl). assert (X : 1%Z <> 2%Z) by discriminate. specialize (F X). discriminate.
-Qed.
+(* the old witness (the trap: backtrack with max_iterations = 1 fails on a plateau of value 1 > 0 with zero slope): the run
+   now ends `failed`; the decision as it was before 85997bc (done_ref_prefix) applied to the very same last done() call --
+   valid state, iter_ok = false, gradient test true -- answers `converged`, with a value above the start *)
+Lemma s_prefix_trap :
+  let c := ex_cfg BGd C07_Defs.Backtrack 1 100 in
+  let r := ex_run ex_trap c 0 in
+  sstatus (ls_result c r) = ST_FAILED /\ lr_ok r = false /\ lr_irreg r = false /\ valid (lr_c r) = true /\
+  (gradient_test (lr_c r) <? lc_eps c) = true /\ (0 <? sfx (ls_result c r)) = true /\
+  done_ref_prefix (lr_c r) (lr_ok r) (gradient_test (lr_c r) <? lc_eps c) = (true, ST_CONVERGED) /\
+  done_ref (lr_c r) (lr_ok r) (gradient_test (lr_c r) <? lc_eps c) = (true, ST_FAILED).
+Proof. vm_compute. repeat split; reflexivity. Qed.
 
 Lemma s_examples :
   (* gd + backtrack on (x-1)^2 from 0: converged at the minimiser after one line search *)
@@ -62,7 +68,7 @@ Lemma s_examples :
   (* converged before the loop *)
   ex_show (ex_cfg BCgd C07_Defs.Fletcher 128 100) (ex_run ex_parab (ex_cfg BCgd C07_Defs.Fletcher 128 100) 1)
   = ([ex_one], ex_zero, ST_CONVERGED, (1, 1)%Z, 0%Z, (true, false), EX_INIT) /\
-  (* the trap: a failed line search reported as converged, value 1 > starting value 0 *)
+  (* the trap: a failed line search ending on a point that passes the gradient test is reported `failed` (repo 85997bc) *)
   (let c := ex_cfg BGd C07_Defs.Backtrack 1 100 in let r := ex_run ex_trap c 0 in
-   sstatus (ls_result c r) = ST_CONVERGED /\ lr_ok r = false /\ (0 <? sfx (ls_result c r)) = true).
+   sstatus (ls_result c r) = ST_FAILED /\ lr_ok r = false /\ (0 <? sfx (ls_result c r)) = true).
 Proof. vm_compute. repeat split; try reflexivity; try discriminate. Qed.
